@@ -457,6 +457,11 @@ func curateFailedPoints(allIds []uuid.UUID, successIds []uuid.UUID, isCompleteRe
 	// what failed, we can just say more concisely what succeeded to hopefully
 	// reduce traffic size.
 	successSize := len(successIds)
+	if successSize > len(allIds) {
+		// More than one shard can report the same id, e.g. a point that the
+		// client inserted twice and that ended up in two shards.
+		successSize = len(allIds)
+	}
 	failedPoints := make([]FailedPoint, 0, len(allIds)-successSize)
 	for _, id := range allIds {
 		_, found := slices.BinarySearchFunc(successIds, id, func(a, b uuid.UUID) int {
